@@ -43,11 +43,19 @@ Definition bound_of (b m : pv) : Prop := b = m \/ b = PArr [m].
 Definition lo_ok_int (vmin : pv) (x : Z) : Prop := vmin = PNone \/ exists m, bound_of vmin (PInt m) /\ m <= x.
 Definition hi_ok_int (vmax : pv) (x : Z) : Prop := vmax = PNone \/ exists m, bound_of vmax (PInt m) /\ x <= m.
 
+Definition strs (vs : list string) : pv := PList (map PStr vs).
+Definition const_ok_str (op : string) (c : pv) : Prop :=
+  (In op scalar_ops /\ exists v, c = PStr v) \/ (In op list_ops /\ exists vs, c = strs vs).
+(* str bounds: Python orders str by code point = byte-wise order of the UTF-8 text (str_leb) *)
+Definition lo_ok_str (vmin : pv) (x : string) : Prop := vmin = PNone \/ exists m, bound_of vmin (PStr m) /\ str_leb m x = true.
+Definition hi_ok_str (vmax : pv) (x : string) : Prop := vmax = PNone \/ exists m, bound_of vmax (PStr m) /\ str_leb x m = true.
+
 (* "the statistics are valid bounds of this cell, and the constant is comparable with it".
-   Integer cells against integer constants: this covers every numeric / temporal / boolean column,
-   the harness scaling dyadic floats to integers; str cells are covered by the tie only (notes/C05.md). *)
+   Integer cells against integer constants cover every numeric / temporal / boolean column (the
+   harness scales dyadic floats to integers); str cells against str constants. *)
 Definition covered (op : string) (c vmin vmax x : pv) : Prop :=
-  exists z, x = PInt z /\ const_ok_int op c /\ lo_ok_int vmin z /\ hi_ok_int vmax z.
+  (exists z, x = PInt z /\ const_ok_int op c /\ lo_ok_int vmin z /\ hi_ok_int vmax z) \/
+  (exists s, x = PStr s /\ const_ok_str op c /\ lo_ok_str vmin s /\ hi_ok_str vmax s).
 
 (* soundness of a leaf decision: it may answer "skip" only if no covered cell satisfies the condition *)
 Definition leaf_sound_int (fv : pv -> pv -> pv -> pv -> res pv) : Prop :=
